@@ -156,6 +156,11 @@ class FakeCluster:
         self.default_client: Optional[FakeClient] = None
         self.events: List[Tuple] = []
         self.counters = {"var_get_timeout": 0, "var_get_wait_then_value": 0, "dlock_contended": 0, "var_set": 0, "var_delete": 0}
+        # message-delay fault (C18 re-upload scenario): callable(name) -> bool deciding whether this delete travels as an
+        # in-flight message; None: deletes take effect at once
+        self.delete_in_flight: Optional[Any] = None
+        self.in_flight: set = set()
+        self.on_delivered: Optional[Any] = None
 
     def who(self) -> Optional[str]:
         k = K.CURRENT
@@ -249,8 +254,27 @@ class FakeVariable:
         self._verify_running()
         cl = CLUSTER
         K.seam(("var.delete", self.name))
-        cl.vars.pop(self.name, None)
         cl.counters["var_delete"] += 1
+        k = K.CURRENT
+        if cl.delete_in_flight is not None and k is not None and k.me() is not None and cl.delete_in_flight(self.name):
+            # the real delete() is fire-and-forget on the client's batched stream: the message is in flight
+            # until the scheduler handles it - here a simulated thread of its own, so the run's Chooser
+            # decides when that happens relative to everything else
+            name, n = self.name, cl.counters["var_delete"]
+            cl.events.append(("var.delete.sent", cl.who(), name))
+            cl.in_flight.add(n)
+
+            def deliver():
+                K.seam(("net.deliver", "var.delete", name))
+                cl.vars.pop(name, None)
+                cl.in_flight.discard(n)
+                cl.events.append(("var.delete.delivered", "net", name))
+                if cl.on_delivered is not None:
+                    cl.on_delivered(name)
+
+            k.spawn(f"net.del{n}", deliver)
+            return
+        cl.vars.pop(self.name, None)
         cl.events.append(("var.delete", cl.who(), self.name))
 
     def __reduce__(self):
